@@ -270,6 +270,34 @@ fn spawn_async_ao_list_in_task'''),
                 break;
             }'''),
     ],
+    'U4i': [
+        ('return-not-consumed', 'brush-core/src/commands.rs', '''            // It's now been handled.
+            result.next_control_flow = ExecutionControlFlow::Normal;''', '''            // It's now been handled.'''),
+        ('exit-consumed-at-boundary', 'brush-core/src/commands.rs', '''        ExecutionControlFlow::ReturnFromFunctionOrScript => {''', '''        ExecutionControlFlow::ReturnFromFunctionOrScript | ExecutionControlFlow::ExitShell => {'''),
+        ('body-error-skips-leave', 'brush-core/src/commands.rs', '''    let result = body.execute(context.shell, &context.params).await;
+
+    // We've come back out, reflect it.
+    context.shell.leave_function()?;
+
+    // Get the actual execution result from the body of the function.
+    let mut result = result?;''', '''    let mut result = body.execute(context.shell, &context.params).await?;
+
+    // We've come back out, reflect it.
+    context.shell.leave_function()?;
+'''),
+        ('break-crosses-boundary', 'brush-core/src/commands.rs', '''        ExecutionControlFlow::BreakLoop { .. } | ExecutionControlFlow::ContinueLoop { .. } => {
+            return error::unimp("break or continue returned from function invocation");
+        }
+''', ''),
+        ('function-status-forced-zero', 'brush-core/src/commands.rs', '''            // It's now been handled.
+            result.next_control_flow = ExecutionControlFlow::Normal;''', '''            // It's now been handled.
+            result = ExecutionResult::success();'''),
+    ],
+    'U4j': [
+        ('subshell-exit-propagates', IN, 'Ok(ExecutionResult::from(subshell_result.exit_code))', 'Ok(subshell_result)'),
+        ('subshell-runs-in-parent', IN, 'let subshell_result = match list.execute(&mut subshell, params).await {', 'let subshell_result = match list.execute(shell, params).await {'),
+        ('subshell-error-status-lost', IN, '                        error.into_result(&subshell)', '                        ExecutionResult::success()'),
+    ],
     'U5': [
         ('sub-becomes-add', AR, 'Ok(left.wrapping_sub(right))', 'Ok(left.wrapping_add(right))'),
         ('lt-becomes-le', AR, 'Ok(bool_to_i64(left < right))', 'Ok(bool_to_i64(left <= right))'),
